@@ -352,6 +352,7 @@ impl<H: ArchH> World<H> {
     /// Executes one operation on the implementation; returns the answer line (same format
     /// as the Lean driver's) and the observations.
     pub fn exec(&mut self, op: &Op) -> (String, Obs) {
+        crate::util::beat();
         let mut obs = Obs::default();
         let ans = match op {
             Op::Mod { m, spec } => {
